@@ -72,14 +72,14 @@ def registered_theorems(module):
 def audit_sources():
     """no sorry/admit/axiom/native_decide/… in any Lean source (comments stripped crudely)"""
     bad = []
-    pat = re.compile(r"\b(sorry|admit|native_decide|bv_decide|implemented_by|unsafe)\b|^\s*axiom\s|maxHeartbeats\s+0")
+    pat = re.compile(r"\b(sorry|admit|native_decide|bv_decide|implemented_by)\b|\bunsafe\s+(def|opaque|instance|theorem|inductive|structure|abbrev)\b|^\s*axiom\s|maxHeartbeats\s+0")
     for p in glob.glob(os.path.join(ROOT, "lean", "**", "*.lean"), recursive=True):
         if "/.lake/" in p:
             continue
         txt = open(p).read()
         txt = re.sub(r"/-.*?-/", "", txt, flags=re.S)
         for i, l in enumerate(txt.splitlines()):
-            l2 = l.split("--")[0]
+            l2 = re.sub(r'"(\\.|[^"\\])*"', '""', l.split("--")[0])   # drop string literals
             if pat.search(l2):
                 bad.append(f"{os.path.relpath(p, ROOT)}:{i+1}: {l.strip()}")
     return bad
@@ -193,6 +193,190 @@ def main(root, argv):
     return t1_property(pid, tier, seed, replay)
 
 EXTRA = {}
+
+# ---------------------------------------------------------------- static properties (C14, C15)
+
+def run_translator():
+    t0 = time.time()
+    env = dict(ENV); env["CARGO_TARGET_DIR"] = os.path.join(BUILD, "cargo-translator")
+    p = subprocess.run(["cargo", "build", "--release", "--offline"], cwd=os.path.join(ROOT, "translator"),
+                       env=env, stdout=subprocess.PIPE, stderr=subprocess.STDOUT, text=True)
+    if p.returncode != 0:
+        return False, p.stdout[-2000:], 0
+    exe = os.path.join(BUILD, "cargo-translator", "release", "hlv-translator")
+    out = os.path.join(ROOT, "lean", "HLV", "Generated", "Facts.lean")
+    tmp = out + ".new"
+    p = subprocess.run([exe, "/repo/src", tmp], stdout=subprocess.PIPE, stderr=subprocess.STDOUT, text=True)
+    if p.returncode != 0:
+        return False, p.stdout[-2000:], 0
+    # only touch the file when its content changed (keeps lake's cache warm)
+    if not os.path.exists(out) or open(out).read() != open(tmp).read():
+        os.replace(tmp, out)
+    else:
+        os.remove(tmp)
+    return True, p.stdout.strip(), time.time() - t0
+
+def static_report():
+    f = os.path.join(BUILD, "static_report.lean")
+    open(f, "w").write("import HLV.Static.Report\n#eval IO.println HLV.Static.reportText\n")
+    ok, out, dt = lean_build(["HLV.Static.Report"])
+    if not ok:
+        return None, out
+    rc, out = sh(["lake", "env", "lean", f], cwd=os.path.join(ROOT, "lean"), timeout=1200)
+    rows = []
+    for l in out.splitlines():
+        parts = l.split("|")
+        if len(parts) == 4:
+            rows.append(dict(property=parts[0], rule=parts[1], offending=[x for x in parts[2].split(";") if x],
+                             recorded=[x for x in parts[3].split(";") if x]))
+    return rows, out
+
+def build_repo_lib():
+    """builds happylock (lib) from /repo's working tree into a private target dir; returns extern args"""
+    tgt = os.path.join(BUILD, "repo-target")
+    env = dict(ENV); env["CARGO_TARGET_DIR"] = tgt
+    p = subprocess.run(["cargo", "build", "--offline", "--lib"], cwd="/repo", env=env,
+                       stdout=subprocess.PIPE, stderr=subprocess.STDOUT, text=True)
+    if p.returncode != 0:
+        return None, p.stdout[-3000:]
+    deps = os.path.join(tgt, "debug", "deps")
+    def newest(pat):
+        c = sorted(glob.glob(os.path.join(deps, pat)), key=os.path.getmtime)
+        return c[-1] if c else None
+    ext = ["--edition", "2021", "--crate-type", "lib", "--emit=metadata", "-L", "dependency=" + deps,
+           "--extern", "happylock=" + os.path.join(tgt, "debug", "libhappylock.rlib")]
+    for name in ["lock_api", "parking_lot"]:
+        r = newest(f"lib{name}-*.rlib")
+        if r: ext += ["--extern", f"{name}={r}"]
+    return ext, ""
+
+def run_probes(pid):
+    from concurrent.futures import ThreadPoolExecutor
+    ext, err = build_repo_lib()
+    if ext is None:
+        return None, err
+    files = []
+    for f in sorted(glob.glob(os.path.join(ROOT, "probes", "*.rs"))):
+        head = open(f).read().splitlines()[:4]
+        meta = {}
+        for l in head:
+            m = re.match(r"//@ (\w+): (.*)", l)
+            if m: meta[m.group(1)] = m.group(2).strip()
+        if meta.get("property") == pid:
+            files.append((f, meta))
+    outdir = os.path.join(BUILD, "probe-out"); os.makedirs(outdir, exist_ok=True)
+    def one(item):
+        f, meta = item
+        o = os.path.join(outdir, os.path.basename(f)[:-3])
+        p = subprocess.run(["rustc"] + ext + [f, "--out-dir", outdir, "--crate-name", os.path.basename(f)[:-3]],
+                           stdout=subprocess.PIPE, stderr=subprocess.STDOUT, text=True, env=ENV)
+        exp = meta.get("expect", "accept")
+        if exp == "accept":
+            ok = p.returncode == 0
+        else:
+            code = exp.split()[1] if len(exp.split()) > 1 else ""
+            if code == "lifetime":
+                ok = p.returncode != 0 and ("lifetime may not live long enough" in p.stdout or "E0521" in p.stdout or "E0597" in p.stdout or "E0515" in p.stdout or "E0499" in p.stdout or "E0716" in p.stdout)
+            else:
+                ok = p.returncode != 0 and (code in p.stdout)
+        return dict(file=f, expect=exp, finding=meta.get("finding"), ok=ok, rc=p.returncode, output=p.stdout[-1500:])
+    with ThreadPoolExecutor(max_workers=16) as ex:
+        res = list(ex.map(one, files))
+    return res, ""
+
+def static_property(pid, tier, seed, replay):
+    t0 = time.time()
+    known = read_known()
+    evidence = {}; violations = []
+    if replay:
+        j = json.load(open(replay))
+        print(json.dumps(j, indent=1)[:4000])
+        if j.get("probe"):
+            ext, err = build_repo_lib()
+            p = subprocess.run(["rustc"] + ext + [j["probe"], "--out-dir", os.path.join(BUILD, "probe-out")],
+                               stdout=subprocess.PIPE, stderr=subprocess.STDOUT, text=True, env=ENV)
+            print("rustc rc =", p.returncode); print(p.stdout[-2000:])
+        return 0
+    ok_t, tout, tdt = run_translator()
+    evidence["translator_s"] = round(tdt, 1)
+    if not ok_t:
+        violations.append(dict(kind="translator", what="translator failed", detail=tout))
+    lean_ok, n_obl, n_dis = lean_obligations(pid, pid, evidence, violations)
+    rows, rout = static_report()
+    out_lines = []; rc = 0
+    new_items = []; known_rows = []
+    if rows is None:
+        violations.append(dict(kind="obligation", what="static report does not build", detail=rout[-2000:]))
+    else:
+        for r in rows:
+            if r["property"] != pid: continue
+            if r["offending"]:
+                new_items.append(r)
+            if r["recorded"]:
+                known_rows.append(r)
+    probes, perr = run_probes(pid)
+    probe_fail = []
+    if probes is None:
+        violations.append(dict(kind="probes", what="happylock does not build for the probes", detail=perr))
+        probes = []
+    for pr in probes:
+        if not pr["ok"]:
+            if pr["finding"]:
+                out_lines.append(f"note: finding {pr['finding']} no longer reproduces with {os.path.basename(pr['file'])} (informational)")
+            else:
+                probe_fail.append(pr)
+    # known findings
+    for f in known.get("findings", []):
+        if f.get("property") != pid: continue
+        hit = any(f["id"] in r["rule"] for r in known_rows) or any(pr.get("finding") == f["id"] and pr["ok"] for pr in probes)
+        if hit:
+            out_lines.append(f"KNOWN-FINDING: property={pid} {f['what']}")
+    if new_items or probe_fail:
+        payload = dict(property=pid, kind="direct violation: the API surface of the current source breaks a rule / a must-not-compile program compiles",
+                       offending_items=new_items,
+                       probe=(probe_fail[0]["file"] if probe_fail else None),
+                       probe_expectation=(probe_fail[0]["expect"] if probe_fail else None),
+                       probe_rustc_output=(probe_fail[0]["output"] if probe_fail else None),
+                       other_failing_probes=[os.path.basename(x["file"]) for x in probe_fail[1:]],
+                       replay_cmd=f"./check {pid} --replay <this file>  (re-runs rustc on the probe against /repo)")
+        p = write_replay(pid, "direct", payload)
+        out_lines.append(f"VIOLATION property={pid} replay={p}")
+        rc = 1
+    elif violations:
+        p = write_replay(pid, "unproved", dict(property=pid, kind="a table theorem or the translator no longer checks and no offending item / probe was found",
+                                               broken_obligations=violations, theorems=[t["name"] for t in evidence.get("theorems", [])]))
+        out_lines.append(f"VIOLATION property={pid} replay={p} no-failing-input-found")
+        rc = 1
+    wall = time.time() - t0
+    samples = [dict(probe=os.path.basename(pr["file"]), expect=pr["expect"], agrees=pr["ok"]) for pr in probes[:6]]
+    ev = dict(property_id=pid, tier=tier, seed=seed, level="proof",
+              coverage=dict(obligations=max(n_obl, 1), discharged=n_dis if n_obl else 0,
+                            checker_cmd=f"translator /repo/src -> lean/HLV/Generated/Facts.lean; cd lean && lake build HLV.Props.{pid}; #print axioms of every registered theorem; rustc on probes/*.rs against the freshly built happylock",
+                            trusted_base=["Lean 4.33 kernel (decide +kernel evaluates the rules on the generated table)",
+                                          "axioms: propext, Classical.choice, Quot.sound only",
+                                          "the translator (syn-based) as a reading of the Rust sources; validated by the rustc probe corpus",
+                                          "the rules in HLV/Static/Rules.lean as a sufficient reading of Rust's type/borrow/auto-trait rules for these escape routes (not a model of rustc)",
+                                          "rustc itself for the probes"],
+                            programs=len(probes), disagreements_checked=len(probes),
+                            evaluations=len(probes), distinct_nontrivial=len({pr['file'] for pr in probes if pr['expect'] != 'accept'}),
+                            rule="every probe is a minimal client program for one escape route (expected to be rejected with a specific error code) or its compiling twin differing in the offending line; non-trivial = must-not-compile probes",
+                            samples=samples or ["(no probes)"],
+                            probe_disagreements=len(probe_fail),
+                            static_rules=[dict(rule=r["rule"], offending=r["offending"], recorded_findings=r["recorded"]) for r in (rows or []) if r["property"] == pid],
+                            theorems=evidence.get("theorems", []),
+                            exhaustive=True,
+                            timings={k: v for k, v in evidence.items() if k.endswith("_s")}),
+              assumptions=["Facts.lean is regenerated from /repo/src at the start of this run",
+                           "the call graph used by the never-blocks rules is name-based and only follows the crate's own unambiguous names"],
+              wall_s=round(wall, 1), violations=(1 if rc else 0))
+    os.makedirs(os.path.join(ROOT, "evidence"), exist_ok=True)
+    json.dump(ev, open(os.path.join(ROOT, "evidence", pid + ".json"), "w"), indent=1)
+    for l in out_lines: print(l)
+    print(f"{pid}: {'FAIL' if rc else 'ok'} — {n_dis}/{n_obl} theorems over the regenerated fact table, {len(probes)} rustc probes ({len(probe_fail)} disagree), {wall:.0f}s")
+    return rc
+
+EXTRA["C14"] = static_property
+EXTRA["C15"] = static_property
 
 def lean_obligations(pid, module, evidence, violations):
     """builds the theorem module + driver, audits axioms. Returns (ok, n_obligations, n_discharged)."""
